@@ -12,7 +12,7 @@ VT_PY = "/opt/veriftools/pyvenv/bin/python3"
 # query id prefix -> properties it speaks for
 OWNERS = {"K1.try_parse_format": ["C13", "C14"], "K1.extension_format": ["C14"], "K1.input_path_from": ["C14"],
           "K1.unsafe_for_terminal": ["C13"], "K2": ["C13"], "K3": ["C13", "C16"], "K4": ["C14"], "K4.open": ["C14"],
-          "K5": ["C15", "C16"], "K6": ["C16"]}
+          "K5": ["C15", "C16"], "K6": ["C16"], "K7": ["C03", "C12", "C18", "C02"], "K8": ["C07", "C02", "C09"]}
 
 
 def mir_dump(scratch, logdir):
@@ -25,6 +25,11 @@ def mir_dump(scratch, logdir):
         p = subprocess.run(["cargo", "+nightly", "rustc", "--offline", "--bin", "xt", "--", "-Zunpretty=mir", "-C", "debug-assertions=off"],
                            cwd=src, stdout=f, stderr=lf, env=env)
     if p.returncode != 0 or os.path.getsize(out) < 1000:
+        return None, src
+    with open(os.path.join(scratch, "lib.mir"), "w") as f, open(os.path.join(logdir, "e3-mir-lib.log"), "w") as lf:
+        p = subprocess.run(["cargo", "+nightly", "rustc", "--offline", "--lib", "--", "-Zunpretty=mir", "-C", "debug-assertions=off"],
+                           cwd=src, stdout=f, stderr=lf, env=env)
+    if p.returncode != 0:
         return None, src
     return out, src
 
@@ -44,8 +49,11 @@ def run(prop, hs, scratch, logdir):
         t = time.time()
         outf = os.path.join(logdir, h.name + ".json")
         tier_arg = "thorough" if os.environ.get("VERIF_TIER_E3") == "thorough" else "quick"
-        p = subprocess.run([VT_PY, os.path.join(XV.ROOT, "lib", "e3main.py"), mir, src, h.name, outf, tier_arg],
+        try:
+            subprocess.run([VT_PY, os.path.join(XV.ROOT, "lib", "e3main.py"), mir, src, h.name, outf, tier_arg],
                            stdout=open(os.path.join(logdir, h.name + ".log"), "w"), stderr=subprocess.STDOUT, timeout=h.timeout)
+        except subprocess.TimeoutExpired:
+            json.dump({"status": "inconclusive", "detail": "E3 engine timed out after %ds" % h.timeout, "violations": []}, open(outf, "w"))
         try:
             res = json.load(open(outf))
         except Exception:
@@ -77,6 +85,24 @@ def owners(q):
     return best[1] if best else []
 
 
+def integration(scratch, src, logdir, testfile):
+    """native integration test through the real crates (same files as lib/native.py uses)"""
+    import re
+    import shutil
+    name = os.path.splitext(testfile)[0]
+    shutil.copy(os.path.join(XV.ROOT, "replay", testfile), os.path.join(src, "tests", testfile))
+    env = dict(XV.ENV)
+    env["CARGO_TARGET_DIR"] = os.path.join(scratch, "t-e3bin")
+    lf = os.path.join(logdir, "e3-" + name + ".log")
+    with open(lf, "w") as f:
+        subprocess.run(["cargo", "test", "--offline", "--test", name, "--", "--test-threads", "1"], cwd=src, stdout=f, stderr=subprocess.STDOUT, env=env, timeout=1200)
+    out = open(lf, errors="replace").read()
+    os.remove(os.path.join(src, "tests", testfile))
+    if "test result: FAILED" in out:
+        return re.findall(r"^(\d+ violations, first:.*)$", out, re.M) or ["native integration test %s failed" % testfile]
+    return []
+
+
 def build_binary(scratch, src, logdir):
     env = dict(XV.ENV)
     env["CARGO_TARGET_DIR"] = os.path.join(scratch, "t-e3bin")
@@ -104,8 +130,12 @@ def confirm(prop, h, mine, r, scratch, src, logdir, binary):
             unknown.append(q)
             lines.append("    native replay: binary did not build")
             continue
+        if kind in ("loop", "from_reader"):
+            key = "stream_native"
+            if key not in done_groups:
+                done_groups[key] = integration(scratch, src, logdir, "stream_native.rs")
         fn = cli_battery.GROUPS.get(kind)
-        key = fn.__name__ if fn else None
+        key = key if kind in ("loop", "from_reader") else (fn.__name__ if fn else None)
         if key in done_groups:
             mism = done_groups[key]
         else:
